@@ -502,3 +502,96 @@ def walk(prj, steps, program=None, tag=None):
                 cur_is_array, dims, avail = False, (), 1
         i += 1
     return Loc(tag, dtype, off, avail, bit=bit, is_bool_member=boolmember)
+
+
+# -------------------------------------------------------------------------------------------------------------------------
+# hand-built projects (size sweeps, brim-filling request mixes)
+# -------------------------------------------------------------------------------------------------------------------------
+class ProjectBuilder:
+    def __init__(self, rng, fw=32, micro800=False):
+        self.rng = rng
+        self.prj = Project()
+        self.prj.fw_major, self.prj.micro800 = fw, micro800
+        self.prj.name = "sweep"
+        self.used = {"template": set(), "handle": set(), "instance": set()}
+        self.names = set()
+
+    def instance(self, small=None):
+        rng = self.rng
+        while True:
+            iid = rng.randrange(1, 256) if small is True else rng.randrange(256, 65536) if small is None else rng.randrange(65536, 1 << 22)
+            if iid not in self.used["instance"]:
+                self.used["instance"].add(iid)
+                return iid
+
+    def string_type(self, name, cap):
+        return make_string_type(self.prj, self.rng, name, cap, self.used)
+
+    def udt(self, name, fields):
+        """fields: list of (name, atom name | DType, array_len) ; BOOLs given as (name, 'BOOL', 0) are packed on hidden hosts"""
+        t = DType(name, "struct")
+        off, host, bits, hc = 0, None, 0, 0
+        for fname, ft, arr in fields:
+            dt = ATOM_TYPES[ft] if isinstance(ft, str) else ft
+            if dt.name == "BOOL" and not arr:
+                if host is None or bits == 8:
+                    host = Member(f"ZZZZZZZZZZ{name[:10]}{hc}", ATOM_TYPES["SINT"], off)
+                    hc += 1
+                    bits = 0
+                    t.members.append(host)
+                    off += 1
+                t.members.append(Member(fname, ATOM_TYPES["BOOL"], host.offset, bit=bits))
+                bits += 1
+                continue
+            host = None
+            al = max(4 if arr else dt.align(), dt.align())
+            off = (off + al - 1) // al * al
+            t.members.append(Member(fname, dt, off, array_len=arr))
+            off += dt.size * (arr or 1)
+        al = t.align()
+        t.size = max(4, (off + al - 1) // al * al)
+        _assign_ids(self.prj, self.rng, t, self.used)
+        return t
+
+    def tag(self, name, dtype, dims=(), program=None, small_instance=None):
+        dt = ATOM_TYPES[dtype] if isinstance(dtype, str) else dtype
+        t = Tag(name, dt, dims, instance_id=self.instance(small_instance), program=program)
+        t.attr3, t.attr5 = self.rng.getrandbits(32), self.rng.getrandbits(32)
+        t.attr6 = self.rng.getrandbits(32) | BASE_TAG_BIT
+        t.data = bytearray(dt.size * t.elements)
+        if program:
+            p = self.prj.programs.setdefault(program, {"instance_id": self.instance(), "routines": [], "symbols": []})
+            p["symbols"].append(t)
+            p["symbols"].sort(key=lambda x: x.instance_id)
+            if not any(s.name == "Program:" + program for s in self.prj.symbols):
+                ps = Tag("Program:" + program, ATOM_TYPES["DINT"], (), instance_id=p["instance_id"], kind="program")
+                self.prj.symbols.append(ps)
+        else:
+            self.prj.symbols.append(t)
+        self.prj.symbols.sort(key=lambda x: x.instance_id)
+        return t
+
+    def done(self):
+        randomize_memory(self.prj, self.rng)
+        return self.prj
+
+
+def redefine_type(prj, rng):
+    """Controller program edited and re-downloaded: a UDT that is not nested in another type gets a new member list
+    under the SAME template instance id (new structure handle).  Returns the type or None."""
+    nested = {m.dtype.name for t in prj.types.values() for m in t.members if m.dtype.is_struct}
+    cands = [t for t in prj.types.values() if t.kind == "struct" and t.name not in nested]
+    if not cands:
+        return None
+    t = rng.choice(sorted(cands, key=lambda x: x.name))
+    scratch = Project()
+    used = {"template": set(), "handle": {x.handle for x in prj.types.values()}, "instance": set()}
+    pool = [x for x in prj.types.values() if x.kind == "string" and x.size <= 200]
+    new = make_udt(scratch, rng, t.name, pool, used, 1, max_members=rng.choice([2, 5, 9]))
+    t.members, t.size, t.handle = new.members, new.size, new.handle
+    t._desc = None
+    for tag in prj.user_tags():
+        if tag.dtype is t:
+            tag.data = bytearray(t.size * tag.elements)
+    randomize_memory(prj, rng)
+    return t
